@@ -36,7 +36,7 @@ func verifPeer(i int) core.PeerID {
 type verifNoEvents struct{}
 
 func (verifNoEvents) Produce(*networkevent.Event) {}
-func (verifNoEvents) Close() error               { return nil }
+func (verifNoEvents) Close() error                { return nil }
 
 // API-only harness file for C16: uses New, AddPending, DeletePending,
 // MovePendingToActive, DeleteActive, ActiveConns, Saturated, Blacklist,
